@@ -274,7 +274,7 @@ def cond_check(kind, case, rec):
         # start values: both bodies are created on fields that already carry a volume-changing displacement (restart, second
         # analysis stage); the reference volumes are those of the undeformed mesh all the same
         ustart = np.zeros_like(f1[0].values)
-        ustart[:, 0] = 0.15 * (np.asarray(mesh.points)[:, 0] - np.asarray(mesh.points)[:, 0].min())
+        ustart[:, 0] = 0.05 * (np.asarray(mesh.points)[:, 0] - np.asarray(mesh.points)[:, 0].min())
         f1[0].values[...] = ustart
         rec.label("bodies-created-on-a-deformed-field")
     s1 = fem.SolidBodyNearlyIncompressible(um, f1, bulk=bulk)
@@ -341,9 +341,16 @@ def cond_check(kind, case, rec):
         return
     rec.nontrivial = abs(case["move"]) >= 0.05 and case["clamped"]
     u1, u2 = res1.x[0].values, res2.x[0].values
+    # Newton started far from equilibrium may end in a spurious root with inverted cells (det F <= 0, outside the domain of the
+    # material laws; seen for stiff bodies released from a deformed start state): such a pair of runs decides nothing
+    for res_ in (res1, res2):
+        Fr = np.asarray(res_.x.extract()[0])
+        if float(np.linalg.det(np.moveaxis(Fr, (0, 1), (-2, -1))).min()) <= 0.05:
+            rec.reject("Newton ended in a state with inverted cells")
+            return
     # scale: the converged displacements, or the start values the iteration came from (a body released from a deformed start
     # state returns to u = 0 up to the Newton tolerance)
-    uscale = max(float(np.abs(u2).max()), 0.15 if prestart else 0.0, 1e-9)
+    uscale = max(float(np.abs(u2).max()), 0.05 if prestart else 0.0, 1e-9)
     rec.close("displacements", float(np.abs(u1 - u2).max()) / uscale, 1e-7, {"bulk/mu": case["bulkratio"]})
     # settle the condensed state at the converged displacements
     s1.assemble.vector(res1.x)
